@@ -168,6 +168,13 @@ func (u *Unit) call(s *State, c *ssa.CallCommon, instr *ssa.Call, k func(*State)
 		k(s)
 		return
 	}
+	// a method call on an interface value that came out of another call (fi, err := os.Lstat(p); fi.Mode()) panics
+	// when that call handed back nil, which library functions do together with an error
+	if c.IsInvoke() && site != nil && len(args) > 0 && args[0].Sort == "Iface" && fromCall(c.Value) {
+		if _, closed := u.p.closedFor(c.Value.Type()); !closed || u.p.libContract(name, len(args)) != nil {
+			u.safety(s, site, "nilrecv."+c.Method.Name(), fmt.Sprintf("(not (= (itype %s) 0))", args[0].S))
+		}
+	}
 	// interface method call on a closed interface: dispatch over the implementing types
 	if c.IsInvoke() && u.p.libContract(name, len(args)) == nil {
 		if impls, ok := u.p.closedFor(c.Value.Type()); ok && len(impls) > 0 {
@@ -1472,6 +1479,38 @@ func (u *Unit) frameAtCall(s *State, name string) bool {
 		}
 		u.usedAssume = appendUnique(u.usedAssume, fmt.Sprintf("%s: a call to %s modifies at most: %s (it reaches the builder only through the callbacks it is given)", u.fnShort(u.fn), shortCallee(name), c.Expr))
 		return true
+	}
+	return false
+}
+
+// fromCall: the value is the result (or one of the results) of a call, possibly loaded back from the local it was
+// stored in by the naive SSA form.
+func fromCall(v ssa.Value) bool {
+	switch x := v.(type) {
+	case *ssa.Call:
+		return true
+	case *ssa.Extract:
+		_, ok := x.Tuple.(*ssa.Call)
+		return ok
+	case *ssa.UnOp:
+		if x.Op != token.MUL {
+			return false
+		}
+		al, ok := x.X.(*ssa.Alloc)
+		if !ok || al.Referrers() == nil {
+			return false
+		}
+		// every store into the local stores a call result
+		n := 0
+		for _, r := range *al.Referrers() {
+			if st, ok := r.(*ssa.Store); ok && st.Addr == al {
+				if !fromCall(st.Val) {
+					return false
+				}
+				n++
+			}
+		}
+		return n > 0
 	}
 	return false
 }
